@@ -18,6 +18,7 @@ structure Row where
   sizeof : Nat
   alignof : Nat
   vptr : Nat          -- byte offset of value_ptr(obj) from the object
+  cvptr : Nat         -- the same through the overload taking a const object
   len : Nat           -- obj.length()
   lenType : Nat       -- sizeof(length_type)
   aux : Nat           -- mat: sizeof(col_type); qua: 1 iff GLM_FORCE_QUAT_DATA_WXYZ
@@ -31,7 +32,7 @@ def lenTypeOf (cfg : Nat) : Nat := if cfg = 7 then 8 else 4
 def alignedFloatVec (L : Nat) : Nat := if L = 1 then 4 else if L = 2 then 8 else 16
 
 def Row.ok (x : Row) : Bool :=
-  x.vptr == 0 && x.lenType == lenTypeOf x.cfg &&
+  x.vptr == 0 && x.cvptr == 0 && x.lenType == lenTypeOf x.cfg &&
   match x.kind with
   | 0 =>  -- vector
     x.len == x.c && x.offs == (List.range x.c).map (· * x.tsize) &&
@@ -60,9 +61,9 @@ def parseRow (line : String) : Option Row :=
     let nums := (rest.takeWhile (· ≠ "|")).map (·.toNat?.getD 0)
     let offs := ((rest.dropWhile (· ≠ "|")).drop 1).map (·.toNat?.getD 0)
     match nums with
-    | [cfg, kind, c, r, ts, ta, isf, al, q, so, ao, vp, len, lt, aux] =>
+    | [cfg, kind, c, r, ts, ta, isf, al, q, so, ao, vp, cvp, len, lt, aux] =>
       some { cfg, kind, c, r, tsize := ts, talign := ta, isFloat := isf == 1, aligned := al == 1, qual := q,
-             sizeof := so, alignof := ao, vptr := vp, len, lenType := lt, aux, offs }
+             sizeof := so, alignof := ao, vptr := vp, cvptr := cvp, len, lenType := lt, aux, offs }
     | _ => none
   | _ => none
 
